@@ -451,4 +451,6 @@ def main(tier):
     check_asm(rep, V)
     check_array_fills(rep, mod)
     check_codelen_end(rep, mod)
+    import asmlin, c19
+    asmlin.check(rep, 'INFLATE', 6, c19.field_offsets('struct inflate_state', ['next_in', 'avail_in', 'next_out', 'avail_out', 'total_out']), r'^decode_huffman_code_block_stateless_0\d$')
     return rep.finish()
